@@ -276,6 +276,8 @@ class ExprMixin:
                 return z3.BoolVal(False)
             cs = [self.equal(fr, x, y, node) for x, y in zip(a.elems, b.elems)]
             return z3.And(*cs) if cs else z3.BoolVal(True)
+        if isinstance(a, SSet) and isinstance(b, SSet):
+            return a.t == b.t
         if isinstance(a, SIter) or isinstance(b, SIter):
             return self.as_seq(a).t == self.as_seq(b).t
         if isinstance(a, (SSeq, STuple)) and isinstance(b, (SSeq, STuple)):
